@@ -275,8 +275,8 @@ pub fn def() -> CheckDef {
                and a decrease/collect/reposition after it; non-trivial run = >=3 consecutive swaps.  Distinct = hash of the case.",
         assumptions: vec!["nsvm runtime, shims and SPL processors as in DESIGN.md §5", "one instruction per transaction"],
         subs: vec![
-            sub("histories", 6000, 100_000, case_strategy, |c: &SolvencyCase, l: &mut Local| check_case(c, l)),
-            sub("swap_runs", 10000, 300_000, run_case_strategy, |c: &SolvencyCase, l: &mut Local| check_run_case(c, l)),
+            sub("histories", 8000, 150_000, case_strategy, |c: &SolvencyCase, l: &mut Local| check_case(c, l)),
+            sub("swap_runs", 20_000, 500_000, run_case_strategy, |c: &SolvencyCase, l: &mut Local| check_run_case(c, l)),
         ],
     }
 }
